@@ -5,7 +5,7 @@ P=$1; D=$2; T=${3:-quick}
 cd /repo || exit 9
 if ! git diff --quiet; then echo "/repo has uncommitted changes"; exit 9; fi
 git apply "$D" || { echo "patch does not apply"; exit 9; }
-cd /verif; ./check "$P" --tier "$T" > /tmp/seed_out.$$ 2>&1; rc=$?
+cd /verif; cp evidence/$P.json /tmp/ev_$P.$$ 2>/dev/null; ./check "$P" --tier "$T" > /tmp/seed_out.$$ 2>&1; rc=$?; [ -f /tmp/ev_$P.$$ ] && mv /tmp/ev_$P.$$ evidence/$P.json
 git -C /repo checkout -- .
 grep -E "^(VIOLATION|UNDECIDED|CHECKER-FAULT|KNOWN-FINDING|C[0-9]+:)" /tmp/seed_out.$$ | cut -c1-400 | head -12
 rm -f /tmp/seed_out.$$
